@@ -2065,11 +2065,11 @@ func (r *vRunner) runHistory(h int, label string, noVerify bool, pairs []*vPair,
 		}
 		for j, m := range p.Pre {
 			res := n.runManager(m)
-			b, _ := json.Marshal(vMgrOp{Op: "mgr", H: h, I: i, J: j, ID: m.ID, Has: m.Has, Doc: res.view, SvcOk: res.svcOk})
+			b, _ := json.Marshal(vMgrOp{Op: "mgr", H: h, I: i, J: j, ID: m.ID, Has: m.Has, Doc: res.view, SvcOk: res.svcOk, Via: m.Via, Key: res.newKey, B58: res.newB58})
 			r.opsW.Write(b)
 			r.opsW.WriteByte('\n')
 			note := ""
-			if p.Kind == "mgr:published" && j == len(p.Pre)-1 && (res.class != "ok" || res.kid != p.tx.SigningKeyID()) {
+			if strings.HasPrefix(p.Kind, "mgr:") && j == len(p.Pre)-1 && (res.class != "ok" || (p.tx.SigningKey() == nil && res.kid != p.tx.SigningKeyID()) || (p.tx.SigningKey() != nil && res.key != p.Signer)) {
 				note = " NONDETERMINISTIC(first-run published with kid " + p.tx.SigningKeyID() + ")"
 			}
 			fmt.Fprintf(r.implW, "mgr %d.%d.%d %s%s\n", h, i, j, res.line(), note)
